@@ -50,7 +50,9 @@ def run(tier):
         dict(lemma='theorem_seq_roundtrip', statement='dec_seq(enc_seq(ws)) == Some(ws)'),
         dict(function='BytecodeWriter::resolve_forward_jumps', contract='every recorded 4-byte slot holds label - start; start < label or refused; all other bytes unchanged'),
     ]
-    not_decided = ['Program <-> bytes (bincode derive) round trip', 'refusal of truncated/corrupted package files',
+    not_decided = ['the visitor interface (read() -> BytecodeFullIteration::dispatch_instruction -> BytecodeVisitor callbacks, 110 arms) is NOT under contract: '
+                   'it is executed by the replay runner with a recording visitor generated from the trait/enum declarations (sampled, every callback compared with what was written)',
+                   'Program <-> bytes (bincode derive) round trip', 'refusal of truncated/corrupted package files',
                    'build-from-package == build-from-source', 'Dora-side readers (pkgs/boots/bytecode/reader.dora, deserializer.dora)',
                    'jump tables (resolve_jump_tables / Switch targets live in the constant pool)', 'line-number table contents']
     return vprop.run_verus_property(PROP, tier, units, runner=runner, assumptions=assumptions, samples=samples,
